@@ -297,6 +297,7 @@ pub fn gen_c18(seed: u64, thorough: bool, only: Option<u64>, out: &mut Out) {
     let mut wire: Vec<Vec<u8>> = vec![];
     let mut expected: Vec<(Vec<u8>, Vec<Option<Vec<u8>>>)> = vec![];
     let mut has_empty_aux = false;
+    let mut qualifying: Vec<Vec<Vec<u8>>> = vec![];
     for g in 0..ngroups {
       let size = match r.below(4) {
         0 => (t as usize).saturating_sub(1),
@@ -324,6 +325,7 @@ pub fn gen_c18(seed: u64, thorough: bool, only: Option<u64>, out: &mut Out) {
       wire.extend(grp.wire.iter().cloned());
       if size >= t as usize {
         expected.push((m, auxs));
+        qualifying.push(grp.wire.clone());
       }
     }
     // runs 4 and 5 keep the groups in generation order and end with a group of exactly t reports (a group that only
@@ -356,7 +358,8 @@ pub fn gen_c18(seed: u64, thorough: bool, only: Option<u64>, out: &mut Out) {
     let want_norm = canon_outputs(expected.iter().map(|(m, a)| (m.clone(), a.iter().map(|x| match x { Some(v) if v.is_empty() => None, o => o.clone() }).collect())).collect());
     let mut verdict = Ok(());
     let mut first_obs = String::new();
-    for (k, threads) in [1usize, 2, 3, 4, 8, 16].iter().enumerate() {
+    let pools: &[usize] = if gi == 1 { &[1, 2, 3, 4, 5, 6, 7, 8, 16] } else { &[1, 2, 3, 4, 8, 16] };
+    for (k, threads) in pools.iter().enumerate() {
       let mut order = msgs.clone();
       if k > 0 {
         r.shuffle(&mut order);
@@ -379,6 +382,28 @@ pub fn gen_c18(seed: u64, thorough: bool, only: Option<u64>, out: &mut Out) {
       }
     }
     let _ = has_empty_aux;
+    // the result is a function of the submission alone: the same server object, asked again with fewer than t reports
+    // of a measurement it has already revealed (and with reports of measurements it has not), reveals nothing
+    if t >= 2 {
+      if let Some(q) = qualifying.first() {
+        let few: Vec<Message> = q.iter().take(t as usize - 1).map(|b| Message::from_bytes(b).unwrap()).collect();
+        for (what, srv) in [("the same server object", &agg), ("a fresh server", &AggregationServer::new(t, &epoch))] {
+          match guarded(|| srv.retrieve_outputs(&few)) {
+            Some(o) if o.is_empty() => {}
+            Some(_) => verdict = Err(format!("{} asked again with t-1 reports of an already revealed measurement reveals it", what)),
+            None => verdict = Err(format!("{} panicked on a sub-threshold submission", what)),
+          }
+        }
+        // ... and the full submission once more gives the same answer as before
+        let again = match guarded(|| agg.retrieve_outputs(&msgs)) {
+          Some(o) => canon_outputs(o.into_iter().map(|x| (x.x.as_vec(), x.aux.into_iter().map(|a| a.map(|d| d.as_vec())).collect())).collect()),
+          None => "panic".into(),
+        };
+        if again != first_obs && verdict.is_ok() {
+          verdict = Err("the same submission to the same server object gives a different result the second time".to_string());
+        }
+      }
+    }
     out.case(format!("agg.run {} {} {}", t, hex(epoch.as_bytes()), wire.iter().map(|b| hex(b)).collect::<Vec<_>>().join(" ")), first_obs, verdict);
   }
 }
